@@ -593,7 +593,9 @@ def create_raggedarray(path, atom=(), dtype='float64', metadata=None,
     create_array(path=ra._indicespath, shape=(0,2), dtype=indextype,
                  overwrite=True)
     ra._update_arraydescr(len=0, size=0)
-    return RaggedArray(ra.path, accessmode=accessmode)
+    ra = RaggedArray(ra.path, accessmode=accessmode)
+    ra._update_readmetxt()  # README still described one (empty) subarray
+    return ra
 
 # TODO, simplify explanation if subarrays are 1-dimensional
 def readmetxt(ra):
